@@ -127,9 +127,11 @@ theorem C15_byteAt_nat {b : PBuf} {fed : List Byte} (h : PInv b fed) (x : Nat)
     the call never panics and never returns `nil`.  It stops for exactly one of three reasons:
     (1) `ErrFullBuffer`: the buffer is full and no consumed reader response carried an error;
     (2) `io.EOF` because the script of the model reader ran out (room is left);
-    (3) the reader's own report `ec` on the last consumed response (`(0, nil)` counts as `io.EOF`).
-    `pre` are the responses consumed before the stop: all with code 0, each delivered at least one
-    byte (`pre.length ≤ n`); in (1) and (2) nothing was consumed iff nothing was read. -/
+    (3) the reader's own report `ec ≠ 0` on the last consumed response (1 = `io.EOF`).
+    A response with a nil error never ends the loop, also when it delivered nothing (`(0, nil)`).
+    `pre` are the responses consumed before the stop: all with code 0; unless the payload ran out
+    (`n = |payload|`), each of them that offered a byte (`mx ≥ 1`) delivered at least one
+    (`offers pre ≤ n`); in (1) and (2) nothing was consumed iff nothing was read. -/
 theorem C15_readFrom {b : PBuf} {fed : List Byte} (h : PInv b fed) (r : Reader)
     {b' : PBuf} {r' : Reader} {n : Nat} {e : Err} (hr : b.readFrom r = (b', r', n, e)) :
     b'.data = b.data ++ r.payload.take n ∧ n ≤ r.payload.length ∧
@@ -137,14 +139,13 @@ theorem C15_readFrom {b : PBuf} {fed : List Byte} (h : PInv b fed) (r : Reader)
     b'.w = b.w ∧ b'.off = b.off ∧ b'.cfg = b.cfg ∧
     PInv b' (fed ++ r.payload.take n) ∧
     e ≠ .ok ∧ e ≠ .panic ∧
-    ∃ pre : List (Nat × Nat), (∀ x ∈ pre, x.2 = 0) ∧ pre.length ≤ n ∧
+    ∃ pre : List (Nat × Nat), (∀ x ∈ pre, x.2 = 0) ∧ (n = r.payload.length ∨ offers pre ≤ n) ∧
       ((e = .full ∧ r.resps = pre ++ r'.resps ∧ b'.data.length = b.cfg.bufferSize ∧
           (pre = [] → n = 0)) ∨
        (e = .eof ∧ r.resps = pre ∧ r'.resps = [] ∧ b'.data.length < b.cfg.bufferSize ∧
           (pre = [] → n = 0)) ∨
-       (∃ mx ec, r.resps = pre ++ (mx, ec) :: r'.resps ∧
-          e = errOfCode (if ec = 0 then 1 else ec) ∧ e ≠ .full ∧
-          (ec = 0 → (mx = 0 ∨ n = r.payload.length) ∧ b'.data.length < b.cfg.bufferSize))) := by
+       (∃ mx ec, r.resps = pre ++ (mx, ec) :: r'.resps ∧ ec ≠ 0 ∧
+          e = errOfCode ec ∧ e ≠ .full)) := by
   obtain ⟨c, pre, hb, hr', hn1, hn2, hm, hpre, hprelen, hcase⟩ := readFrom_master h.len_le hr
   have hp := pinv_readFrom h r
   rw [hr] at hp
@@ -153,20 +154,20 @@ theorem C15_readFrom {b : PBuf} {fed : List Byte} (h : PInv b fed) (r : Reader)
     rw [hb]; simp only [List.length_append, List.length_take]; omega
   refine ⟨by rw [hb], hn1, hr', by rw [hb], by rw [hb], by rw [hb], hp, ?_, ?_, pre, hpre,
     hprelen, ?_⟩
-  · rcases hcase with ⟨h1, _⟩ | ⟨h1, _⟩ | ⟨mx, ec, _, h2, _⟩
+  · rcases hcase with ⟨h1, _⟩ | ⟨h1, _⟩ | ⟨mx, ec, _, hec, h2⟩
     · rw [h1]; simp
     · rw [h1]; simp
-    · rw [h2]; exact (errOfCode_ne _ (by split <;> omega)).1
-  · rcases hcase with ⟨h1, _⟩ | ⟨h1, _⟩ | ⟨mx, ec, _, h2, _⟩
+    · rw [h2]; exact (errOfCode_ne _ hec).1
+  · rcases hcase with ⟨h1, _⟩ | ⟨h1, _⟩ | ⟨mx, ec, _, hec, h2⟩
     · rw [h1]; simp
     · rw [h1]; simp
-    · rw [h2]; exact (errOfCode_ne _ (by split <;> omega)).2.1
+    · rw [h2]; exact (errOfCode_ne _ hec).2.1
   · rw [hlen']
-    rcases hcase with ⟨h1, h2, h3, h5⟩ | ⟨h1, h2, h3, h4, h5⟩ | ⟨mx, ec, h1, h2, h3⟩
+    rcases hcase with ⟨h1, h2, h3, h5⟩ | ⟨h1, h2, h3, h4, h5⟩ | ⟨mx, ec, h1, hec, h2⟩
     · exact Or.inl ⟨h1, h2, h3, h5⟩
     · exact Or.inr (Or.inl ⟨h1, h2, h3, h4, h5⟩)
-    · refine Or.inr (Or.inr ⟨mx, ec, h1, h2, ?_, h3⟩)
-      rw [h2]; exact (errOfCode_ne _ (by split <;> omega)).2.2.1
+    · refine Or.inr (Or.inr ⟨mx, ec, h1, hec, h2, ?_⟩)
+      rw [h2]; exact (errOfCode_ne _ hec).2.2.1
 
 /-- `ReadFrom` returns `ErrFullBuffer` only with a completely full buffer. -/
 theorem C15_readFrom_full {b : PBuf} {fed : List Byte} (h : PInv b fed) (r : Reader) :
@@ -174,7 +175,7 @@ theorem C15_readFrom_full {b : PBuf} {fed : List Byte} (h : PInv b fed) (r : Rea
   intro he
   obtain ⟨-, -, -, -, -, -, -, -, -, pre, -, -, hcase⟩ := C15_readFrom h r (b' := (b.readFrom r).1)
     (r' := (b.readFrom r).2.1) (n := (b.readFrom r).2.2.1) (e := (b.readFrom r).2.2.2) rfl
-  rcases hcase with ⟨_, _, h3, _⟩ | ⟨h1, _⟩ | ⟨_, _, _, _, h3, _⟩
+  rcases hcase with ⟨_, _, h3, _⟩ | ⟨h1, _⟩ | ⟨_, _, _, _, _, h3⟩
   · exact h3
   · rw [he] at h1; cases h1
   · exact absurd he h3
@@ -193,7 +194,8 @@ theorem readFrom_fill_outcome {b : PBuf} {fed : List Byte} (h : PInv b fed) (r :
   rw [hd, hn]; exact ⟨rfl, rfl⟩
 
 /-- Chunking independence of `ReadFrom`: for a reader whose script is error free, never answers
-    `(0, nil)` and is long enough (`FillScript`), the outcome is determined by the payload alone:
+    `(0, nil)` while payload is left and is long enough (`FillScript`; for scripts with `(0, nil)`
+    answers anywhere see `readFrom_fillN` in ReaderNil.lean), the outcome is determined by the payload alone:
     the data gain `payload.take (min |payload| room)`, the reader keeps the rest, and the error is
     `ErrFullBuffer` if the payload fills the room, else `io.EOF`. The chunk sizes `mx` of the
     script and the capacity of the buffer do not occur on the right-hand sides. -/
@@ -430,7 +432,7 @@ def View.pureRet (cfg : BufCfg) (v : View) : BOp → Nat
 def specRun (cfg : BufCfg) (ops : List BOp) : View :=
   ops.foldl (fun v op => v.step cfg (v.pureRet cfg op) op) ⟨[], 0, 0⟩
 
-/-- every reader of the history is error free, never answers `(0, nil)` and has at least as many
+/-- every reader of the history is error free, offers a byte on every response and has at least as many
     responses as payload bytes (so that the script cannot run out before the payload) -/
 def AllFill (ops : List BOp) : Prop :=
   ∀ op ∈ ops, ∀ r, op = BOp.readFrom r → FillScript r.resps r.payload.length
